@@ -371,7 +371,7 @@ class C04(Check):
                         for w in ((u,) if not tftp else (u, u[1:])):
                             if w and w not in seen and fileh.servable(tftp, w):
                                 seen.add(w)
-                                yield {"tftp": tftp, "cfg": cfg, "uri": w, "via_server": True}
+                                yield {"tftp": tftp, "cfg": cfg, "uri": fileh.wire_to_handler(tftp, w), "wire": w, "via_server": True}
         # every character in every position, and legal requests at and beyond every natural limit
         for cfg in (mkcfg("/", False, False, ""), mkcfg("/", False, True, ""), mkcfg("/p", False, False, ".j2"),
                     mkcfg("/p", True, True)):
@@ -480,16 +480,16 @@ class C04(Check):
         h = self.handler(cfg, tftp)
         if h is None:
             return [False, False, [], 4, b""]
-        return self.run_request(h, cfg, tftp, uri, via_server=bool(c.get("via_server")))
+        return self.run_request(h, cfg, tftp, uri, via_server=bool(c.get("via_server")), wire=c.get("wire"))
 
-    def run_request(self, h, cfg, tftp, uri, via_server=False):
+    def run_request(self, h, cfg, tftp, uri, via_server=False, wire=None):
         fileh.set_log_level(cfg.get("loglevel", "DEBUG"))
         if via_server:
             # the request travels through the real HttpServer / TftpServer (raw request target on the wire)
             _REC["paths"] = []
             _REC["on"] = True
             try:
-                _seen, _ctx, can, cls, body = fileh.via_server(h, tftp, uri)
+                _seen, _ctx, can, cls, body = fileh.via_server(h, tftp, wire if wire is not None else uri)
             finally:
                 _REC["on"] = False
             if not can:
@@ -715,9 +715,22 @@ class C04(Check):
                               "file; D = replace it by a directory; W1/W2 = rewrite it; X:<k> = the next R's open() of the "
                               "file fails with errno k (EACCES/EIO/ELOOP) or, at that moment, the file becomes a "
                               "directory (swapdir) / its parent becomes a regular file (swapparent)"}
-        return {"tftp": c["tftp"], "cfg": c["cfg"], "uri": c["uri"], "uri_hex": c["uri"].encode("latin-1").hex()}
+        d = {"tftp": c["tftp"], "cfg": c["cfg"], "uri": c["uri"], "uri_hex": c["uri"].encode("latin-1").hex()}
+        if c.get("via_server"):
+            d["via_server"] = "the request travels through the real HttpServer / TftpServer in front of the handler"
+            d["wire"] = c.get("wire")
+        return d
 
     def shrink(self, c):
+        if c.get("via_server"):
+            # shrink what goes over the wire; the handler-level string follows from it
+            for cand in self._shrink(dict(c, uri=c["wire"])):
+                if fileh.servable(cand["tftp"], cand["uri"]):
+                    yield dict(cand, wire=cand["uri"], uri=fileh.wire_to_handler(cand["tftp"], cand["uri"]))
+            return
+        yield from self._shrink(c)
+
+    def _shrink(self, c):
         if "hist" in c:
             for i in range(len(c["hist"])):
                 yield dict(c, hist=c["hist"][:i] + c["hist"][i + 1:])
